@@ -86,8 +86,10 @@ def gen_config(rng, i, tier="quick"):
     c["lam_form"] = rng.choice(["float", "float", "float", "matrix_const", "matrix_sym"])
     c["readonly"] = rng.random() < 0.3
     c["fortran"] = rng.random() < 0.2
-    c["beta_form"] = rng.choice(["float", "float", "int", "vector"]) if c["beta"] == int(c["beta"]) else \
-        rng.choice(["float", "vector"])
+    c["beta_form"] = rng.choice(["float", "float", "int", "vector", "vector_var"]) if c["beta"] == int(c["beta"]) else \
+        rng.choice(["float", "vector", "vector_var"])
+    if i in (8, 10, 13, 17):
+        c["beta_form"] = "vector_var"
     return c
 
 
@@ -108,6 +110,9 @@ def build_inputs(c):
     b = c["beta"]
     if form == "vector":
         beta = np.zeros(total) + float(b)
+    elif form == "vector_var":          # a genuinely per-pair cost: unequal, non-negative entries
+        r = np.random.default_rng(c["data_seed"] + 7)
+        beta = float(b) * (0.25 + 1.5 * r.random(total)) + r.integers(0, 2, size=total) * 0.125
     elif form == "int":
         beta = int(b)
     elif form == "float":
@@ -207,6 +212,7 @@ def traced_run(c, fault_plan=None, keep_model=False):
                     dict(fault_plan) if fault_plan else {"kind": c.get("expect", "none")})
     hdr["timeLimitMs"] = int(c.get("time_limit_ms", 120000))
     tracedir = common.scratch("run-")
+    hdr["_beta_caller"] = hyper["label_switching_cost"]
     rec = sink.Recorder(hdr, tracedir)
     arg_snap = {"series": [proj.dig(s) for s in series],
                 "lam": proj.dig(hyper["sparsity_weight"]), "beta": proj.dig(hyper["label_switching_cost"])}
@@ -216,7 +222,8 @@ def traced_run(c, fault_plan=None, keep_model=False):
         os.environ.pop("CUPCAKE_ENABLE_MULTIPROCESSING", None)
     np.random.seed(c["rng_seed"] % (2 ** 32))
     random.seed(c["rng_seed"])
-    faults.install(fault_plan, c.get("delay_seed"))
+    marker = os.path.join(tracedir, "fault.fired")
+    faults.install(fault_plan, c.get("delay_seed"), marker)
     vh.install_sink(rec)
     res, exc = None, None
     t0 = time.time()
@@ -256,6 +263,8 @@ def traced_run(c, fault_plan=None, keep_model=False):
                 e = json.loads(line)
                 if e["ev"] == "admm_exit":
                     wr.append([e["covDig"], e["thetaDig"], e["lamDig"], e["pid"], e["converged"], e["iterations"]])
+    hdr["faultFired"] = os.path.exists(marker)
+    hdr.pop("_beta_caller", None)
     common.rm(tracedir)
     hdr["workerResults"] = wr
     hdr["elapsedMs"] = int(elapsed * 1000)
@@ -303,8 +312,10 @@ def return_event(c, hdr, rec, res, series, args_same):
     ev["nAll"] = len(all_ll)
     ev["clusterLens"] = [len(x) for x in cl_ll]
     beta = c["beta"]
+    bcaller = rec.hdr.get("_beta_caller")
+    bp = [float(v) for v in (np.zeros(T) + np.asarray(bcaller, dtype=np.float64))]   # per-pair cost as the caller gave it
     if finite:
-        s = proj.pick_scale(floats + [beta], n_terms=2 * T + 8)
+        s = proj.pick_scale(floats + [beta] + bp, n_terms=2 * T + 8)
         ev["scale"] = s
         ev["allLL"] = _limbs(all_ll, s)
         ev["clusterLL"] = [_limbs(x, s) for x in cl_ll]
@@ -315,6 +326,7 @@ def return_event(c, hdr, rec, res, series, args_same):
         ev["clusterMedian"] = _limbs(res.cluster_log_likelihood_median, s)
         ev["cost"] = proj.limb(res.label_assignment_cost, s)
         ev["betaL"] = proj.limb(beta, s)
+        ev["betaPairsL"] = [proj.limb(v, s) for v in bp[:max(T - 1, 0)]]
         ev["slack"] = 8 * T + 64
     # ---- C05: every per-point value is the log-density of that point under its own cluster
     o7 = []
@@ -397,5 +409,7 @@ def tlc_view(tr):
     hdr = clean(tr["hdr"])
     hdr.setdefault("fault", {"kind": "none"})
     hdr.setdefault("timeLimitMs", 600000)
+    hdr.setdefault("faultFired", False)
+    hdr["outcome"] = tr["events"][-1]["ev"] if tr["events"] else "none"
     hdr["betaZero"] = float(tr["hdr"]["cfg"]["beta"]) == 0.0
     return {"hdr": hdr, "events": clean(tr["events"])}
